@@ -2105,3 +2105,202 @@ Proof.
     unfold in_indexer in I. rewrite N in I. simpl in I.
     destruct (swap_case p) as [q|]; [exact I|discriminate].
 Qed.
+
+(* ================================================================ index_overlap and its cache (state between inlets / calls) *)
+
+Lemma list_eqb_nat_eq (a b : list nat) : list_eqb Nat.eqb a b = true -> a = b.
+Proof.
+  revert b; induction a as [|x a IH]; intros [|y b] H; simpl in H; try discriminate; auto.
+  apply andb_true_iff in H. destruct H as [H1 H2]. apply Nat.eqb_eq in H1. subst. f_equal. apply IH; exact H2.
+Qed.
+
+(* every cached entry is what a fresh computation would give *)
+Definition cache_ok (rk : list nat) (c : icache) : Prop :=
+  forall key li, In (key, li) c -> left_indices rk key = Ok li.
+
+Lemma cache_ok_nil rk : cache_ok rk [].
+Proof. intros key li []. Qed.
+
+(* dropping entries (the "more than 100 keys: pop the oldest" eviction, other users of the dict) keeps it valid *)
+Lemma cache_ok_incl rk c c' : incl c' c -> cache_ok rk c -> cache_ok rk c'.
+Proof. intros I H key li Hin. apply H. apply I. exact Hin. Qed.
+
+Lemma icache_find_ok rk c key li : cache_ok rk c -> icache_find c key = Some li -> left_indices rk key = Ok li.
+Proof.
+  induction c as [|[k l] c IH]; intros H F; simpl in F; [discriminate|].
+  destruct (list_eqb Nat.eqb k key) eqn:E.
+  - inversion F; subst. apply list_eqb_nat_eq in E. subst. apply H. left; reflexivity.
+  - apply IH; [|exact F]. intros k' l' Hin. apply H. right; exact Hin.
+Qed.
+
+Lemma index_overlap_ok rk c key :
+  cache_ok rk c ->
+  fst (index_overlap rk c key) = left_indices rk key /\ cache_ok rk (snd (index_overlap rk c key)).
+Proof.
+  intros H. unfold index_overlap. destruct (icache_find c key) as [li|] eqn:F; simpl.
+  - split; [symmetry; eapply icache_find_ok; eauto|exact H].
+  - destruct (left_indices rk key) as [li|e] eqn:L; simpl; split; auto.
+    intros k l [E|Hin]; [inversion E; subst; exact L|apply H; exact Hin].
+Qed.
+
+(* the cache-free specification of the first loop of mix_from *)
+Fixpoint overlaps0 (rk : list nat) (ins : list finlet) : res (list (option (list nat))) :=
+  match ins with
+  | [] => Ok []
+  | i :: t =>
+    match fi_pk i with
+    | None => do l <- overlaps0 rk t; Ok (None :: l)
+    | Some pk =>
+      match left_indices rk (map (fun k => nth k pk 0%nat) (fi_order i)) with
+      | Err e => Err e
+      | Ok li => do l <- overlaps0 rk t; Ok (Some li :: l)
+      end
+    end
+  end.
+
+Lemma overlaps_ok rk c ins :
+  cache_ok rk c -> fst (overlaps rk c ins) = overlaps0 rk ins /\ cache_ok rk (snd (overlaps rk c ins)).
+Proof.
+  revert c; induction ins as [|i t IH]; intros c H; simpl; [split; auto|].
+  destruct (fi_pk i) as [pk|].
+  - destruct (index_overlap_ok rk c (map (fun k => nth k pk 0%nat) (fi_order i)) H) as [A B].
+    destruct (index_overlap rk c (map (fun k => nth k pk 0%nat) (fi_order i))) as [r c'] eqn:E. simpl in A, B.
+    rewrite <- A. destruct r as [li|e]; simpl; [|split; auto].
+    destruct (IH c' B) as [A' B']. destruct (overlaps rk c' t) as [r' c''] eqn:E'. simpl in *.
+    rewrite A'. split; auto.
+  - destruct (IH c H) as [A' B']. destruct (overlaps rk c t) as [r' c''] eqn:E'. simpl in *.
+    rewrite A'. split; auto.
+Qed.
+
+Definition pk_view (x : pkstate * option err) : vec * vec * option err := (pk_top (fst x), pk_bot (fst x), snd x).
+
+(* one call: the outlets and the outcome do not depend on what the cache holds, and the cache stays valid *)
+Lemma mix_pk_cache_independent n rk s ins split :
+  cache_ok rk (pk_cache s) ->
+  pk_view (mix_and_split_pk n rk s ins split)
+    = pk_view (mix_and_split_pk n rk (mkPK (pk_top s) (pk_bot s) []) ins split) /\
+  cache_ok rk (pk_cache (fst (mix_and_split_pk n rk s ins split))).
+Proof.
+  intros H. unfold mix_and_split_pk. cbn [pk_cache pk_top pk_bot].
+  destruct (overlaps_ok rk (pk_cache s) (filter finlet_nonempty ins) H) as [A B].
+  destruct (overlaps_ok rk [] (filter finlet_nonempty ins) (cache_ok_nil rk)) as [A0 _].
+  destruct (overlaps rk (pk_cache s) (filter finlet_nonempty ins)) as [r c'] eqn:E.
+  destruct (overlaps rk [] (filter finlet_nonempty ins)) as [r0 c0] eqn:E0.
+  simpl in A, B, A0. subst r r0.
+  destruct (overlaps0 rk (filter finlet_nonempty ins)) as [lis|e]; simpl.
+  - destruct (split_to (apply_inlets (vzero n) (filter finlet_nonempty ins) lis) split) as [values dummy].
+    simpl. split; [reflexivity|exact B].
+  - split; [reflexivity|exact B].
+Qed.
+
+(* the same history with the cache wiped before every call *)
+Fixpoint run_calls_nocache (n : nat) (rk : list nat) (top bot : vec) (calls : list (list finlet * vec))
+  : list (vec * vec * option err) :=
+  match calls with
+  | [] => []
+  | (ins, split) :: t =>
+    let '(s', e) := mix_and_split_pk n rk (mkPK top bot []) ins split in
+    (pk_top s', pk_bot s', e) :: run_calls_nocache n rk (pk_top s') (pk_bot s') t
+  end.
+
+(* over every history of calls on the same outlets and package: the cache never changes a result *)
+Lemma run_calls_cache_independent n rk s calls :
+  cache_ok rk (pk_cache s) ->
+  run_calls n rk s calls = run_calls_nocache n rk (pk_top s) (pk_bot s) calls.
+Proof.
+  revert s; induction calls as [|[ins split] t IH]; intros s H; simpl; [reflexivity|].
+  destruct (mix_pk_cache_independent n rk s ins split H) as [V C].
+  destruct (mix_and_split_pk n rk s ins split) as [s1 e1] eqn:E1.
+  destruct (mix_and_split_pk n rk (mkPK (pk_top s) (pk_bot s) []) ins split) as [s2 e2] eqn:E2.
+  unfold pk_view in V. simpl in V, C. inversion V as [[T B Ee]]. subst e2.
+  rewrite (IH s1 C). rewrite T, B. reflexivity.
+Qed.
+
+(* ---- what a cache-free lookup gives: the receiver's position of the same chemical *)
+Lemma find_pos_spec pk g j : find_pos pk g = Some j -> (j < length pk)%nat /\ nth j pk 0%nat = g.
+Proof.
+  revert j; induction pk as [|h t IH]; intros j H; simpl in H; [discriminate|].
+  destruct (Nat.eqb_spec h g) as [->|N].
+  - inversion H; subst. simpl. split; [lia|reflexivity].
+  - destruct (find_pos t g) as [j'|] eqn:F; [|discriminate]. inversion H; subst.
+    destruct (IH j' eq_refl) as [A B]. simpl. split; [lia|exact B].
+Qed.
+
+Lemma left_indices_spec rk key li : left_indices rk key = Ok li ->
+  length li = length key /\
+  forall k, (k < length key)%nat -> (nth k li 0%nat < length rk)%nat /\ nth (nth k li 0%nat) rk 0%nat = nth k key 0%nat.
+Proof.
+  revert li; induction key as [|g t IH]; intros li H; simpl in H.
+  - inversion H; subst. split; [reflexivity|]. intros k Hk; simpl in Hk; lia.
+  - destruct (find_pos rk g) as [j|] eqn:F; [|discriminate].
+    destruct (left_indices rk t) as [r|e] eqn:L; simpl in H; [|discriminate]. inversion H; subst.
+    destruct (IH r eq_refl) as [A B]. destruct (find_pos_spec rk g j F) as [J1 J2].
+    split; [simpl; lia|]. intros [|k] Hk; simpl in *; [split; assumption|apply B; lia].
+Qed.
+
+Lemma left_indices_NoDup rk key li : left_indices rk key = Ok li -> NoDup key -> NoDup li.
+Proof.
+  revert li; induction key as [|g t IH]; intros li H ND; simpl in H.
+  - inversion H; constructor.
+  - destruct (find_pos rk g) as [j|] eqn:F; [|discriminate].
+    destruct (left_indices rk t) as [r|e] eqn:L; simpl in H; [|discriminate]. inversion H; subst.
+    inversion ND as [|? ? NI ND']; subst. constructor; [|apply IH; auto].
+    intros Hin. apply NI.
+    destruct (left_indices_spec rk t r L) as [LEN SP].
+    apply In_nth with (d := 0%nat) in Hin. destruct Hin as (k & Hk & Ek).
+    rewrite LEN in Hk. destruct (SP k Hk) as [_ S2]. rewrite Ek in S2.
+    destruct (find_pos_spec rk g j F) as [_ J2]. rewrite J2 in S2. rewrite S2. apply nth_In. exact Hk.
+Qed.
+
+(* ---- data[left_index] += values *)
+Lemma add_at_length v idx vals : length (add_at v idx vals) = length v.
+Proof.
+  revert v vals; induction idx as [|i idx IH]; intros v [|x vals]; simpl; auto. rewrite IH. apply upd_length.
+Qed.
+
+Lemma add_at_other v idx vals j : ~ In j idx -> nthq (add_at v idx vals) j = nthq v j.
+Proof.
+  revert v vals; induction idx as [|i idx IH]; intros v [|x vals] H; simpl; auto.
+  rewrite IH by (intros E; apply H; right; exact E).
+  apply nthq_upd_other. intros E; apply H; left; exact E.
+Qed.
+
+Lemma add_at_nth v idx vals k :
+  NoDup idx -> length vals = length idx -> (forall i, In i idx -> (i < length v)%nat) -> (k < length idx)%nat ->
+  nthq (add_at v idx vals) (nth k idx 0%nat) == nthq v (nth k idx 0%nat) + nthq vals k.
+Proof.
+  revert v vals k; induction idx as [|i idx IH]; intros v [|x vals] k ND L B Hk; simpl in *; try lia.
+  inversion ND as [|? ? Hni ND']; subst.
+  destruct k as [|k].
+  - rewrite add_at_other by exact Hni. rewrite nthq_upd_same_lt by (apply B; left; reflexivity).
+    rewrite nthq_cons0. lra.
+  - rewrite nthq_consS. rewrite IH; auto; try lia.
+    + rewrite nthq_upd_other; [lra|]. intros E. apply Hni. rewrite E. apply nth_In. lia.
+    + intros j Hj. rewrite upd_length. apply B; right; exact Hj.
+Qed.
+
+(* moving the flows of an inlet of another package: flow k of the insertion order lands on the receiver's position of
+   the SAME chemical, every other position of the receiver is untouched *)
+Lemma foreign_transfer_lemma rk pk acc flows order li :
+  left_indices rk (map (fun k => nth k pk 0%nat) order) = Ok li ->
+  NoDup (map (fun k => nth k pk 0%nat) order) -> length acc = length rk ->
+  let acc' := add_at acc li (gather flows order) in
+  (forall k, (k < length order)%nat ->
+     nth (nth k li 0%nat) rk 0%nat = nth (nth k order 0%nat) pk 0%nat /\
+     nthq acc' (nth k li 0%nat) == nthq acc (nth k li 0%nat) + nthq flows (nth k order 0%nat)) /\
+  (forall j, ~ In j li -> nthq acc' j = nthq acc j) /\ length acc' = length acc.
+Proof.
+  intros L ND LA acc'.
+  destruct (left_indices_spec _ _ _ L) as [LEN SP]. rewrite map_length in LEN, SP.
+  pose proof (left_indices_NoDup _ _ _ L ND) as NDl.
+  split; [|split; [intros j Hj; apply add_at_other; exact Hj|apply add_at_length]].
+  intros k Hk. destruct (SP k Hk) as [S1 S2]. split.
+  - rewrite S2. rewrite nth_indep with (d' := nth 0 pk 0%nat) by (rewrite map_length; exact Hk).
+    change (nth 0 pk 0%nat) with ((fun k0 => nth k0 pk 0%nat) 0%nat). rewrite map_nth. reflexivity.
+  - unfold acc'. rewrite add_at_nth; auto.
+    + rewrite nthq_gather by exact Hk. reflexivity.
+    + rewrite gather_length; lia.
+    + intros i Hi. apply In_nth with (d := 0%nat) in Hi. destruct Hi as (k' & Hk' & <-).
+      rewrite LA. apply SP. lia.
+    + lia.
+Qed.
